@@ -58,14 +58,19 @@ def main():
         out = os.path.join(VERIF, "seeded", a.save)
         os.makedirs(out, exist_ok=True)
         for f in ("patch.diff", "demo.py"):
-            shutil.copy(os.path.join(a.dir, f), out)
+            if os.path.abspath(os.path.join(a.dir, f)) != os.path.abspath(os.path.join(out, f)):
+                shutil.copy(os.path.join(a.dir, f), out)
         meta = {}
         try:
             meta = json.load(open(os.path.join(a.dir, "meta.json")))
         except Exception:
             pass
         meta["breaks_property"] = a.prop
-        meta["confirmation"] = {k: res.get(k) for k in ("demo_clean_rc", "demo_patched_rc", "tests_pass", "tests_tail", "confirmed")}
+        newconf = {k: res.get(k) for k in ("demo_clean_rc", "demo_patched_rc", "tests_pass", "tests_tail", "confirmed")}
+        if a.skip_tests and isinstance(meta.get("confirmation"), dict) and meta["confirmation"].get("tests_pass") is not None:
+            newconf["tests_pass"], newconf["tests_tail"] = meta["confirmation"]["tests_pass"], meta["confirmation"].get("tests_tail")
+            newconf["confirmed"] = bool(newconf["demo_clean_rc"] == 0 and newconf["demo_patched_rc"] and newconf["tests_pass"])
+        meta["confirmation"] = newconf
         meta["what_was_run"] = "selftest/try_seeded.py --prop %s --dir <red-team output> --tier %s (scratch copy of /repo at %s; demo clean/patched, full suite patched, ./check %s against the patched tree)" % (
             a.prop, a.tier, sh(["git", "-C", "/repo", "rev-parse", "--short", "HEAD"]).stdout.strip(), a.prop)
         meta["check_result"] = {k: v for k, v in res.items() if k.startswith("check_")}
